@@ -29,6 +29,9 @@ C19_HARNESSES = [
 # exprgen: depth-1 over the whole alphabet with one throwing callable, then depth 2 with one harness run per root kind
 EXPR_D2_ROOTS = list(range(1, 28))
 EXPR_SEQ = [H("expr", "expr_d1")] + [H("expr", "expr_d2", args=[r, 0, 1], weight=(6 if r >= 18 else 1)) for r in EXPR_D2_ROOTS] + [H("expr", "expr_known_lvss")]
+# lighter sweeps: without the Reactive leaf mode / without stop events (the full sweep runs under C04 and C05)
+EXPR_SEQ_NR = [H("expr", "expr_d1")] + [H("expr", "expr_d2", args=[r, 0, 0], weight=(6 if r >= 18 else 1)) for r in EXPR_D2_ROOTS] + [H("expr", "expr_known_lvss")]
+EXPR_SEQ_Q = [H("expr", "expr_d1")] + [H("expr", "expr_d2", args=[r, 0, 0, 0], weight=(3 if r >= 18 else 1)) for r in EXPR_D2_ROOTS]
 EXPR_SEQ_FAULTS = [H("expr", "expr_d2", args=[r, 1, 0], weight=6, thorough_only=True) for r in EXPR_D2_ROOTS if r >= 18]
 
 RACES = [H("races", "race_compose", 2, 3, args=[k, oa, ob, ns]) for k in (0, 1, 2, 3) for (oa, ob, ns) in ((0, 0, 0), (1, 0, 0), (2, 1, 0), (0, 2, 0), (1, 2, 1))]
@@ -36,11 +39,11 @@ RACE_LVSS = [H("races", "race_lvss", 2, 3, args=[4, 0, 0], **{"max-failures": 60
 
 CHECKS = {
     "C19": {"harnesses": C19_HARNESSES},
-    "C01": {"harnesses": EXPR_SEQ + RACES + [
+    "C01": {"harnesses": EXPR_SEQ_NR + [H("expr", "expr_d2", args=[r, 0, 1], weight=6, thorough_only=True) for r in EXPR_D2_ROOTS if r >= 18] + RACES + [
         H("cancel", "canc_generic", 2, 3), H("cancel", "canc_evt2", 2, 3), H("scopes", "scope_close_race", 2, 3, args=[0]),
         H("sched", "sch_loop", 2, 3), H("futures", "fut_v2", 2, 3, args=[0, 0])],
         "deadline": {"quick": 480, "thorough": 2400}},
-    "C02": {"harnesses": EXPR_SEQ + EXPR_SEQ_FAULTS + RACES + RACE_LVSS + [
+    "C02": {"harnesses": EXPR_SEQ_NR + EXPR_SEQ_FAULTS + RACES + RACE_LVSS + [
         H("futures", "fut_v2", 3, 4, args=[0, 0]), H("futures", "fut_v2", 3, 4, args=[1, 0]), H("futures", "fut_faults"),
         H("cancel", "canc_detach", 3, 4, args=[0]), H("cancel", "canc_evt2", 2, 3), H("cancel", "canc_basic", 2, 3),
         H("scopes", "scope_v0", 3, 4, args=[0])],
@@ -51,7 +54,7 @@ CHECKS = {
         H("futures", "fut_v2", 3, 4, args=[1, 0]), H("scopes", "scope_v1", 3, 4, args=[0, 2])],
         "deadline": {"quick": 480, "thorough": 2400}},
     "C05": {"harnesses": EXPR_SEQ + EXPR_SEQ_FAULTS, "deadline": {"quick": 420, "thorough": 2400}},
-    "C12": {"harnesses": EXPR_SEQ, "deadline": {"quick": 420, "thorough": 2400}},
+    "C12": {"harnesses": EXPR_SEQ_Q + [H("expr", "expr_d2", args=[r, 0, 1], weight=6, thorough_only=True) for r in EXPR_D2_ROOTS if r >= 18], "deadline": {"quick": 420, "thorough": 2400}},
     "C06": {
         "harnesses": [
             H("sched", "sch_loop", 3, 4),
